@@ -82,13 +82,18 @@ Theorem C20_server_tail_order : Server.Model.tail_steps Generated.servecodec_tai
 Proof. exact Server.Inv.servecodec_tail_safe. Qed.
 
 (* ---- streams ---- *)
-Theorem C20_streams_closed_with_connection : forall x x', Stream.Inv.reachable Stream.Model.current x ->
+Theorem C20_client_streams_closed_with_connection : forall x x', Stream.Inv.reachable Stream.Model.current x ->
   Stream.Model.step Stream.Model.current x Stream.Model.ConnLoss = Some x' ->
   (forall s c, Stream.Model.lookup s (Stream.Model.cstreams x') = Some c ->
-     Stream.Model.c_closed c = true /\ Stream.Model.c_blocked c = 0%nat) /\
-  (forall s c, Stream.Model.lookup s (Stream.Model.sstreams x') = Some c ->
-     Stream.Model.s_closed c = true /\ Stream.Model.s_blocked c = 0%nat).
+     Stream.Model.c_closed c = true /\ Stream.Model.c_blocked c = 0%nat).
 Proof. exact Stream.Inv.connloss_closes_all. Qed.
+
+Theorem C20_server_streams_closed_by_teardown : forall x x', Stream.Inv.reachable Stream.Model.current x ->
+  Stream.Model.step Stream.Model.current x Stream.Model.STeardown = Some x' ->
+  (forall s c, Stream.Model.lookup s (Stream.Model.sstreams x') = Some c ->
+     Stream.Model.s_closed c = true /\ Stream.Model.s_blocked c = 0%nat) /\
+  Stream.Model.sdecq x' = nil /\ Stream.Model.torn x' = true.
+Proof. exact Stream.Inv.teardown_closes_all. Qed.
 
 Print Assumptions C20_conn_first_close.
 Print Assumptions C20_conn_second_close_reports_shutdown.
@@ -99,4 +104,5 @@ Print Assumptions C20_client_close.
 Print Assumptions C20_server_teardown_progress.
 Print Assumptions C20_server_waitgroup_exact.
 Print Assumptions C20_server_tail_order.
-Print Assumptions C20_streams_closed_with_connection.
+Print Assumptions C20_client_streams_closed_with_connection.
+Print Assumptions C20_server_streams_closed_by_teardown.
